@@ -116,10 +116,18 @@ def _layout(T):
 
 def run_case(case, ctx):
     m = import_repo()
-    cs_i = common.load(case, compiled=False)
-    cs_c = lib(libside.load, case["defs"], case["cfg"], True)
+    # half of the cases load the definitions under the OTHER byte order and switch afterwards: nothing a generated
+    # reader fixed at compile time may depend on the endianness (it is configuration read at parse time)
+    flip = (len(case["data"]) // 2 + len(case.get("raw", "")) // 2 + len(case["defs"][-1]["t"]["fields"])) % 2 == 1 and case["cfg"]["endian"] in "<>"
+    load_cfg = dict(case["cfg"], endian=">" if case["cfg"]["endian"] == "<" else "<") if flip else case["cfg"]
+    cs_i = common.load(dict(case, cfg=load_cfg), compiled=False)
+    cs_c = lib(libside.load, case["defs"], load_cfg, True)
     if isinstance(cs_c, Err):
         raise Violation("no-fallback", f"compiled=True load raised {cs_c} where compiled=False loads: {common.describe(case)}", cs_c.where)
+    if flip:
+        cs_i.endian = case["cfg"]["endian"]
+        cs_c.endian = case["cfg"]["endian"]
+        ctx.count("endian-switched-after-load")
     Ti, Tc = cs_i.Root, cs_c.Root
     li, lc = _layout(Ti), _layout(Tc)
     if li != lc:
